@@ -112,6 +112,9 @@ class StubTubeSolver:
         return BarState(k * (d - tube._verif_dth * tube.times[i]), k, d)
 
 
+MULTS = [3, 1, 2, 1, 4]
+
+
 def build_model(desc):
     from srlife import receiver
     model = receiver.Receiver(1.0, 1, mk_opt(desc["recv"]))
@@ -119,7 +122,8 @@ def build_model(desc):
     for (opt, n) in desc["panels"]:
         panel = receiver.Panel(mk_opt(opt))
         for _ in range(n):
-            t = receiver.Tube(5.0, 0.5, 2.5, 2, 1, 1)
+            # tube multipliers are bookkeeping for thermal/flow/damage stages: the spring system must ignore them
+            t = receiver.Tube(5.0, 0.5, 2.5, 2, 1, 1, multiplier=MULTS[len(tubes) % len(MULTS)])
             t.set_times(np.array(desc.get("times", TIMES)))
             t._verif_id = len(tubes)
             t._verif_k = desc["k"][len(tubes)]
@@ -564,7 +568,7 @@ def fem_model(desc):
     for (opt, n) in desc["panels"]:
         panel = receiver.Panel(mk_opt(opt))
         for _ in range(n):
-            t = receiver.Tube(5.0, 0.5, FEM_H, 3, 4, 2)
+            t = receiver.Tube(5.0, 0.5, FEM_H, 3, 4, 2, multiplier=MULTS[len(tubes) % len(MULTS)])
             t.make_1D(t.h / 2, 0.0)
             t.set_times(times)
             dT = desc["dT"][len(tubes)]
